@@ -5,7 +5,8 @@ set -u
 PATCH="$(readlink -f "$1")"; shift
 cd /repo || exit 2
 if [ -n "$(git status --porcelain --untracked-files=no)" ]; then echo "/repo working tree not clean" >&2; exit 2; fi
-trap 'git -C /repo checkout -- . ; find /verif/replays -name "*.json" -newer "$PATCH.stamp" -delete 2>/dev/null; rm -f "$PATCH.stamp"' EXIT
+# evidence files written while the change is applied describe the changed tree: put the committed ones back
+trap 'git -C /repo checkout -- . ; git -C /verif checkout -- evidence 2>/dev/null; find /verif/replays -name "*.json" -newer "$PATCH.stamp" -delete 2>/dev/null; rm -f "$PATCH.stamp"' EXIT
 touch "$PATCH.stamp"
 git apply "$PATCH" || { echo "PATCH DOES NOT APPLY"; exit 2; }
 echo "== repository tests with the change"
